@@ -21,6 +21,7 @@ import Mistletoe.Props.C07_Resolve
 import Mistletoe.Props.C10_Lists
 import Mistletoe.Props.C19_EndToEnd
 import Mistletoe.Props.C06_Html
+import Mistletoe.Props.C09_Setext
 import Driver.Ast
 open Lean Mistletoe
 
@@ -327,6 +328,32 @@ def c19Document (j : Json) : Except String Json := do
         ("headings", Json.arr (hs.map (fun h => Json.arr #[Driver.nat h.1, Driver.str h.2])).toArray),
         ("forest", forestJson (Block.toForest hs))])
 
+/-- a block of the C09 fragment with setext headings and HTML blocks: the kinds of `blk2Of` plus
+    {"k":"setext","lines":[…],"ind":n,"c":"=","len":n} and {"k":"html","lines":[…]} -/
+def blk3Of (j : Json) : Except String MdRound.Blk3 := do
+  let k ← j.getObjValAs? String "k"
+  match k with
+  | "setext" => do
+    let c ← match (← Driver.getStr j "c") with
+      | [c] => pure c
+      | _ => throw "c: one character"
+    pure (.setext (← (← Driver.getArr j "lines").toList.mapM Driver.asStr) (← j.getObjValAs? Nat "ind") c (← j.getObjValAs? Nat "len"))
+  | "html" => do pure (.html (← (← Driver.getArr j "lines").toList.mapM Driver.asStr))
+  | _ => do pure (.blk2 (← blk2Of j))
+
+/-- op "c09.fragment3": {"blocks": [block, …] (non-empty), "depth": k} → the hypotheses of `C09_setext_roundtrip_partial` (k = 0) /
+    `C09_quoted_html_roundtrip_partial` (k > 0: no setext heading, tab-free lines) and the text the theorem speaks about -/
+def c09Fragment3 (j : Json) : Except String Json := do
+  let bs ← (← Driver.getArr j "blocks").toList.mapM blk3Of
+  let k := (j.getObjValAs? Nat "depth").toOption.getD 0
+  match bs with
+  | [] => throw "blocks: empty"
+  | it :: rest =>
+    let lines := MdRound.itemsLines3 it rest
+    let ok := it.ok && rest.all (·.ok) && MdRound.adjOk3 it rest &&
+      (k == 0 || ((it :: rest).all (fun x => !x.isSetext) && lines.all (fun l => !l.contains '\t')))
+    pure (Json.mkObj [("ok", Json.bool ok), ("text", Driver.str (MdRound.qStrs k lines).flatten)])
+
 def dispatch (op : String) (j : Json) : Except String Json :=
   match op with
   | "c14.hyps" => c14Hyps j
@@ -337,6 +364,7 @@ def dispatch (op : String) (j : Json) : Except String Json :=
   | "c10.lists" => c10Lists j
   | "c09.fragment" => c09Fragment j
   | "c09.fragment2" => c09Fragment2 j
+  | "c09.fragment3" => c09Fragment3 j
   | "c09.lists" => c09Lists j
   | "c19.outline" => c19Outline j
   | "c19.document" => c19Document j
